@@ -590,6 +590,32 @@ fn write_dt_utc_or_generalized(writer: DERWriter, dt: OffsetDateTime) -> Result<
 	Ok(())
 }
 
+/// Checks that `oid` can be encoded as an OBJECT IDENTIFIER (yasna panics otherwise)
+fn check_oid(oid: &[u64]) -> Result<(), Error> {
+	match oid {
+		[0 | 1, 0..=39, ..] => Ok(()),
+		[2, second, ..] if *second < u64::MAX - 2 * 40 => Ok(()),
+		_ => Err(Error::InvalidObjectIdentifier),
+	}
+}
+
+/// Checks that `s` can be encoded as an IA5String (yasna panics otherwise)
+fn check_ia5(s: &str) -> Result<(), Error> {
+	match s.is_ascii() {
+		true => Ok(()),
+		false => Err(Error::InvalidAsn1String(InvalidAsn1String::Ia5String(
+			s.to_owned(),
+		))),
+	}
+}
+
+fn check_distinguished_name(dn: &DistinguishedName) -> Result<(), Error> {
+	dn.iter().try_for_each(|(ty, _)| match ty {
+		DnType::CustomDnType(oid) => check_oid(oid),
+		_ => Ok(()),
+	})
+}
+
 fn write_distinguished_name(writer: DERWriter, dn: &DistinguishedName) {
 	writer.write_sequence(|writer| {
 		for (ty, content) in dn.iter() {
